@@ -156,6 +156,8 @@ def variants():
 
 
 def run_case(spec, ctx):
+    if "variant" in spec and isinstance(spec.get("rules"), dict):
+        spec = spec["rules"]           # a replay file holds (rule set, variant): the rule set is evaluated under every variant again
     if spec.get("kind") == "configured_limit":
         return run_configured_limit(spec, ctx)
     import yaml
@@ -371,8 +373,14 @@ def run_case(spec, ctx):
                 if len(groups[name]) > 1:
                     t_, k_ = typed_of(rs)
                     found = [x for x in found if t_ is not None and x[1].get("key") == k_ and x[1].get("type") == t_]
-                    if t_ is not None and sum(1 for j in groups[name] if typed_of(spec["rules"][j]) == (t_, k_)) > 1:
-                        found = found[:1]
+                    ambiguous = t_ is not None and sum(1 for j in groups[name] if typed_of(spec["rules"][j]) == (t_, k_)) > 1
+                    if ambiguous:
+                        # several same-named rules with the same type and key (e.g. two 'none' results): their entries cannot be
+                        # told apart, they are accounted by the per-name count above only
+                        if t_ not in hidden:
+                            expected_components.add(name)
+                        ctx.count("rule_outcomes_checked")
+                        continue
                     if oc in ("missing_req", "missing_group", "dep_failed"):
                         want = {"missing_req": [dr.get_name(absent)], "missing_group": [dr.get_name(absent), dr.get_name(failed)], "dep_failed": [dr.get_name(failed)]}[oc]
                         sk = [x for x in sk if all(n in x.get("details", "") for n in want) and dr.get_name(present) not in x.get("details", "")][:1]
